@@ -23,7 +23,7 @@ LEAN = os.path.join(VERIF, "lean")
 ALLOWED_AXIOMS = {"propext", "Classical.choice", "Quot.sound"}
 FORBIDDEN = re.compile(r"\bsorry\b|\badmit\b|^\s*axiom\s|native_decide|bv_decide|implemented_by|\bunsafe\s|maxHeartbeats\s+0")
 
-GOENV = dict(os.environ, GOFLAGS="-mod=mod", GOPROXY="off", GOSUMDB="off", GOTOOLCHAIN="local",
+GOENV = dict(os.environ, VERIF_REPO=REPO, GOFLAGS="-mod=mod", GOPROXY="off", GOSUMDB="off", GOTOOLCHAIN="local",
              CGO_ENABLED=os.environ.get("CGO_ENABLED", "0"), VERIF_DIR=VERIF)
 
 
@@ -139,21 +139,20 @@ def main():
     # ---- 1+2: extract and prove, serialised by a lock (shared lake build directory)
     with open(os.path.join(VERIF, ".lock"), "w") as lock:
         fcntl.flock(lock, fcntl.LOCK_EX)
-        rc, out = sh(["go", "build", "-o", os.path.join(VERIF, "bin", "extract"), "."],
-                     cwd=os.path.join(VERIF, "extract"), env=GOENV)
-        if rc != 0:
-            errors.append("extractor does not build: " + out[-2000:])
-        else:
-            rc, out = sh([os.path.join(VERIF, "bin", "extract"), REPO, os.path.join(LEAN, "YaegiVerif", "Generated")]
-                         + prop.get("extract_heavy", []), env=GOENV)
-            log.append(out)
+        gen_dir = os.path.join(LEAN, "YaegiVerif", "Generated")
+        xdir = os.path.join(VERIF, "extract", "cmd", pid.lower())
+        if os.path.isdir(xdir):
+            xbin = os.path.join(VERIF, "bin", "extract-" + pid)
+            rc, out = sh(["go", "build", "-o", xbin, "./cmd/" + pid.lower()], cwd=os.path.join(VERIF, "extract"), env=GOENV)
             if rc != 0:
-                errors.append("extractor failed: " + out[-2000:])
-            if prop.get("extract_heavy"):
-                # light families too (the driver imports them)
-                sh([os.path.join(VERIF, "bin", "extract"), REPO, os.path.join(LEAN, "YaegiVerif", "Generated")], env=GOENV)
+                errors.append("extractor does not build: " + out[-2000:])
+            else:
+                rc, out = sh([xbin, REPO, gen_dir], env=GOENV, timeout=1800)
+                log.append(out)
+                if rc != 0:
+                    broken.append("fact extraction failed on the current source: " + out[-1500:])
         # the driver (model + spec + generated facts; no proofs)
-        rc, out = sh(["lake", "build", "driver"], cwd=LEAN)
+        rc, out = sh(["lake", "build", "driver-" + pid], cwd=LEAN)
         driver_ok = rc == 0
         if rc != 0:
             broken.append("the executable model no longer builds with the regenerated facts: " +
@@ -217,8 +216,21 @@ def main():
     resfile = os.path.join(VERIF, "evidence", f".{pid}.{os.getpid()}.result.json")
     if prop.get("harness"):
         sh(["cp", os.path.join(REPO, "go.sum"), os.path.join(VERIF, "harness", "go.sum")])
-        rc, out = sh(["go", "build", "-tags", "verif", "-o", hbin, "./cmd/" + prop["harness"]],
+        modargs = []
+        if os.path.realpath(REPO) != "/repo":
+            # scratch copy of the repository (mutant runs): same module, different replace target
+            alt = os.path.join(VERIF, "bin", f"alt-{os.getpid()}.mod")
+            txt = open(os.path.join(VERIF, "harness", "go.mod")).read().replace("=> /repo", "=> " + os.path.realpath(REPO))
+            open(alt, "w").write(txt)
+            sh(["cp", os.path.join(REPO, "go.sum"), alt[:-4] + ".sum"])
+            modargs = ["-modfile=" + alt]
+            hbin += f"-alt{os.getpid()}"
+        rc, out = sh(["go", "build"] + modargs + ["-tags", "verif", "-o", hbin, "./cmd/" + prop["harness"]],
                      cwd=os.path.join(VERIF, "harness"), env=GOENV)
+        if modargs:
+            for f in (alt, alt[:-4] + ".sum"):
+                if os.path.exists(f):
+                    os.remove(f)
         if rc != 0:
             broken.append("correspondence harness no longer builds against the repository: " + out[-1500:])
         elif not driver_ok:
@@ -239,6 +251,8 @@ def main():
             finally:
                 if os.path.exists(resfile):
                     os.remove(resfile)
+                if modargs and os.path.exists(hbin):
+                    os.remove(hbin)
 
     # ---- 4: verdict
     violations = []   # (replay_path, suffix)
